@@ -32,7 +32,7 @@ RULE = (
     "(ALL verdict vectors {ok,rewrite,block}^(k+m)) x (2 user/bot text pairs incl. one with quotes/braces/$; thorough: 6 pairs, a prior turn in the history, "
     "assistant message also supplied when output is off) + per-rail name lists. Every cell is non-trivial (the table is the scope); distinct = the cell"
 )
-MIN_HELD = {"quick": 20000, "thorough": 150000}
+MIN_HELD = {"quick": 20000, "thorough": 80000}
 MAX_INCONCLUSIVE = 0.01
 EXHAUSTIVE = {"quick": True, "thorough": True}
 ASSUMPTIONS = [
@@ -488,7 +488,6 @@ def classify(r):
 # ----------------------------------------------------------------------------- case enumeration
 def _grid(spec, pairs, forms, i0, seed, hist=(0,), also_supply_when_output_off=False):
     k, m = spec["k"], spec["m"]
-    i = i0
     for bits in range(16):
         subset = [c for j, c in enumerate(CATS) if bits >> j & 1]
         doc_supply = "dialog" not in subset and "output" in subset
@@ -501,14 +500,12 @@ def _grid(spec, pairs, forms, i0, seed, hist=(0,), also_supply_when_output_off=F
                     for ut, bt in pairs:
                         for h in hist:
                             for sup in supplies:
-                                i += 1
-                                yield {"id": i, "spec": spec, "subset": subset, "form": form, "vin": list(vin), "vout": list(vout), "ut": ut, "bt": bt, "hist": h, "supply": sup, "cid": "s%dn%d" % (seed, i)}
+                                yield {"id": 0, "spec": spec, "subset": subset, "form": form, "vin": list(vin), "vout": list(vout), "ut": ut, "bt": bt, "hist": h, "supply": sup, "cid": ""}
 
 
 def _names_cells(spec, pairs, i0, seed, rng, n):
     """per-rail name lists: a category is given as a (non-empty) list of its rails' names."""
     k, m, r = spec["k"], spec["m"], spec["r"]
-    i = i0
     for _ in range(n):
         subset = [c for c in CATS if rng.random() < 0.6]
         names = {}
@@ -519,35 +516,41 @@ def _names_cells(spec, pairs, i0, seed, rng, n):
         if not names:
             continue
         ut, bt = rng.choice(pairs)
-        i += 1
         yield {
-            "id": i, "spec": spec, "subset": subset, "form": "names", "names": names,
+            "id": 0, "spec": spec, "subset": subset, "form": "names", "names": names,
             "vin": [rng.choice(VERDICTS) for _ in range(k)], "vout": [rng.choice(VERDICTS) for _ in range(m)],
-            "ut": ut, "bt": bt, "hist": 0, "supply": "dialog" not in subset and "output" in subset, "cid": "s%dn%d" % (seed, i),
+            "ut": ut, "bt": bt, "hist": 0, "supply": "dialog" not in subset and "output" in subset, "cid": "",
         }
 
 
 def cases(tier, seed):
     quick = tier == "quick"
     pairs = PAIRS_QUICK if quick else PAIRS_THOROUGH
-    forms = ("list", "dict") if quick else ("list", "dict", "partial", "object")
     rng = random.Random(1600 + seed)
     i = 0
     for mode in ("general", "dialog"):
         for k in (0, 1, 2):
             for m in (0, 1, 2):
                 spec = {"k": k, "m": m, "r": 1, "mode": mode, "exc": False}
-                for c in _grid(spec, pairs[mode], forms, i, seed, hist=(0,) if quick else (0, 1), also_supply_when_output_off=not quick):
-                    i = c["id"]
-                    yield c
-                for c in _names_cells(spec, pairs[mode], i, seed, rng, 12 if quick else 120):
-                    i = c["id"]
-                    yield c
+                grids = [_grid(spec, pairs[mode], ("list", "dict"), i, seed)]
+                if not quick:
+                    # the other two spellings of the option; a prior turn in the history; an assistant message although output is off
+                    grids.append(_grid(spec, pairs[mode][:2], ("partial", "object"), None, seed))
+                    grids.append(_grid(spec, pairs[mode][:2], ("list",), None, seed, hist=(1,), also_supply_when_output_off=True))
+                grids.append(_names_cells(spec, pairs[mode], None, seed, rng, 12 if quick else 120))
+                for g in grids:
+                    for c in g:
+                        i += 1
+                        c["id"] = i
+                        c["cid"] = "s%dn%d" % (seed, i)
+                        yield c
         # rail exceptions instead of refusals; configuration without retrieval rails
         for k, m, r, exc in ((1, 1, 1, True), (2, 1, 0, False)) if quick else ((1, 1, 1, True), (2, 2, 1, True), (2, 1, 0, False), (1, 2, 0, True)):
             spec = {"k": k, "m": m, "r": r, "mode": mode, "exc": exc}
-            for c in _grid(spec, pairs[mode][:2], ("list", "dict"), i, seed):
-                i = c["id"]
+            for c in _grid(spec, pairs[mode][:2], ("list", "dict"), None, seed):
+                i += 1
+                c["id"] = i
+                c["cid"] = "s%dn%d" % (seed, i)
                 yield c
 
 
